@@ -215,7 +215,7 @@ def gen_cases(rec, rng, tier):
         R = fag.maybe_digits(rng, rng.choice([fag.random_dfa, fag.random_connected_dfa])(rng, n, k, p_final=rng.choice([0.2, 0.5, 0.8])))
         yield {'cls': 'random_dfa', 'ref': R, 'iso': h64(R), 'requery': True}
         for _ in range(8 if thorough else 3):
-            yield {'cls': 'random_dfa_renamed', 'ref': fag.random_renaming(rng, R), 'iso': h64(R)}
+            yield {'cls': 'random_dfa_renamed', 'ref': fag.rename(R, dict(zip(R[0], fag.random_names(rng, len(R[0]), exotic=True)))), 'iso': h64(R)}
     # blown-up DFAs: product of a small DFA with a counter -> many equivalent states
     for _ in range(250 if thorough else 15):
         B = fag.random_connected_dfa(rng, rng.randint(1, 3), 2)
